@@ -15,7 +15,7 @@ PROP = "C03"
 
 # classes whose docstring promises that an integer random_state makes the
 # estimator deterministic ("Use an int to make the randomness deterministic")
-DOCUMENTED_DETERMINISTIC = {"KMeansL1L2"}
+DOCUMENTED_DETERMINISTIC = {"KMeansL1L2", "TransformedTargetClassifier2"}
 
 
 def _viol(c, seen, spec, oracle, detail, msg):
@@ -150,7 +150,12 @@ def run(c, index, tier):
                 "two fresh fits on the same data with the same numpy global seed differ (differing: %r); unseeded RandomState() requests in this run: %d" % (bad, unseeded),
             )
     # ---- O3: documented determinism of an integer random_state
-    if spec.name in DOCUMENTED_DETERMINISTIC and isinstance(cfg.get("random_state"), int):
+    det = isinstance(cfg.get("random_state"), int)
+    if spec.name == "TransformedTargetClassifier2":
+        # the random_state of its PermutationReciprocalTransformer is the seed
+        # of the permutation; the inner classifiers used here are deterministic
+        det = str(cfg.get("transformer", "")).startswith("object-rs")
+    if spec.name in DOCUMENTED_DETERMINISTIC and det:
         c.probe("documented_determinism_checked")
         f3 = spec.build(cfg)
         _env(c, g2)
@@ -160,4 +165,4 @@ def run(c, index, tier):
             o3 = _observe(c, spec, f3, cfg, Xp)
             bad = R.same_outputs(spec, want, o3, exact=True)
             if bad:
-                _viol(c, seen, spec, "int-random_state-not-deterministic", (bad[0],), "with random_state=%r the model depends on the numpy global seed (differing: %r)" % (cfg.get("random_state"), bad))
+                _viol(c, seen, spec, "int-random_state-not-deterministic", (bad[0],), "with an integer random_state (%r) the model depends on the numpy global seed (differing: %r)" % (cfg.get("random_state", cfg.get("transformer")), bad))
